@@ -226,6 +226,12 @@ def sweep(world, rep, ts):
             n_eval += 1
         elif 'D09' in guards:
             world.guard_hits['D09'] += 1
+        else:
+            # networkx convention on a directed static graph: ordered pairs u != v without u->v
+            expni = ms((a, b) for a in nodes for b in nodes if a != b and (a, b) not in Eset)
+            got = list(get(lambda: list(dn.non_interactions(g, t)), 'dn.non_interactions', t))
+            if ms(got) != expni:
+                raise V('interactions', 'dn.non_interactions', t, got, sorted(expni, key=repr))
     # ---- t-independent entry points
     got = get(lambda: dn.is_empty(g), 'dn.is_empty', None)
     if bool(got) != (not m.keys()):
